@@ -18,9 +18,9 @@ import (
 func init() {
 	for _, p := range []string{"C01", "C02"} {
 		prop := p
-		fams := []string{"uniform", "productive", "nullable", "prec", "prec-sep", "separators", "lalr", "dup-rules", "bigauto"}
+		fams := []string{"uniform", "productive", "nullable", "prec", "prec-sep", "separators", "lalr", "dup-rules", "bigauto", "manysyms", "hugerule"}
 		if prop == "C02" {
-			fams = []string{"lalr", "separators", "separators", "samehandle", "samehandle", "productive-small", "nullable", "uniform-small", "bigauto"}
+			fams = []string{"lalr", "separators", "separators", "samehandle", "samehandle", "productive-small", "nullable", "uniform-small", "bigauto", "manysyms", "hugerule"}
 		}
 		replay := func(c *Ctx, raw json.RawMessage) string {
 			var gc GCase
@@ -168,6 +168,43 @@ func evalTables(c *Ctx, gc GCase, prop string) string {
 		}
 		return true
 	})
+	// a few derived sentences as well (long rules and large alphabets are out of
+	// reach of the exhaustive strings); choices are a function of the grammar text
+	if msg == "" {
+		h := Hash(gc.Text)
+		for k := 0; k < 6 && msg == ""; k++ {
+			ch := make([]int, 40)
+			for j := range ch {
+				h = h*6364136223846793005 + 1442695040888963407
+				ch[j] = int(h >> 33 % 8)
+			}
+			w := g.Derive(ch, 700)
+			if w == nil {
+				break
+			}
+			in := make([]int, len(w))
+			for i, x := range w {
+				in[i] = ids[x]
+			}
+			for _, lk := range lookups {
+				c.Eval(1)
+				r := yg.Drive(l, lk.f, in, 200000)
+				if r.Bad != "" {
+					if prop == "C02" {
+						msg = fmt.Sprintf("%s does not accept the derived sentence %s of an LALR(1) grammar (class %s): %s", lk.name, clip(inputNames(s, w), 300), rf.class, r.Bad)
+					}
+					continue
+				}
+				if r.Accepted {
+					if err := g.CheckDerivation(r.Reds, append([]int{}, w...)); err != nil && prop == "C01" {
+						msg = fmt.Sprintf("%s accepts the derived sentence %s but the reductions are not a rightmost derivation in reverse: %v", lk.name, clip(inputNames(s, w), 300), err)
+					}
+				} else if prop == "C02" {
+					msg = fmt.Sprintf("%s rejects the derived sentence %s of an LALR(1) grammar (class %s)", lk.name, clip(inputNames(s, w), 300), rf.class)
+				}
+			}
+		}
+	}
 	if msg != "" {
 		return msg + "\n" + gc.Text
 	}
